@@ -99,14 +99,17 @@ InterpDep(d, dict) == [d EXCEPT !.v = Interp(d.v, dict)]
 EffMgmtOwn(lin) == LET dict == Dict(lin) m == FirstWins(CatF(Chain(lin, 1), "mgmt"), <<>>) IN [i \in 1..Len(m) |-> InterpDep(m[i], dict)]
 IsImport(d) == d.scope = "import" /\ d.typ = "pom"
 \* BOM import: own (non-import) management first, then each imported BOM's effective management, first wins
-RECURSIVE ImportAll(_, _, _)
-ImportAll(imports, boms, acc) ==
-  IF imports = <<>> THEN acc
+\* An imported BOM's own imports belong to ITS effective model: Maven builds that completely (own entries, then its
+\* imports, depth first) before it looks at the importer's next import.  Depth-bounded (import cycles are a Maven error).
+RECURSIVE ImportAllD(_, _, _, _)
+ImportAllD(imports, boms, acc, depth) ==
+  IF imports = <<>> \/ depth = 0 THEN acc
   ELSE LET d == imports[1]
            cand == {b \in 1..Len(boms) : boms[b][1].g = d.g /\ boms[b][1].a = d.a /\ <<L(boms[b][1].v)>> = d.v}
-       IN ImportAll(Tail(imports), boms,
-                    IF cand = {} THEN acc
-                    ELSE FirstWins(SelectSeq(EffMgmtOwn(boms[CHOOSE b \in cand : TRUE]), LAMBDA x : ~IsImport(x)), acc))
+           bm == IF cand = {} THEN <<>> ELSE EffMgmtOwn(boms[CHOOSE b \in cand : TRUE])
+       IN ImportAllD(Tail(imports), boms,
+                     ImportAllD(SelectSeq(bm, IsImport), boms, FirstWins(SelectSeq(bm, LAMBDA x : ~IsImport(x)), acc), depth - 1), depth)
+ImportAll(imports, boms, acc) == ImportAllD(imports, boms, acc, 4)
 EffMgmt(lin, boms) == LET own == EffMgmtOwn(lin) IN
   ImportAll(SelectSeq(own, IsImport), boms, SelectSeq(own, LAMBDA x : ~IsImport(x)))
 Inject(d, mg) == LET hit == {i \in 1..Len(mg) : DepKey(mg[i]) = DepKey(d)} IN
